@@ -448,6 +448,7 @@ Inductive case :=
 | CJust (chk fixed : bool) (v : Z)
 | CSel (chk : bool) (same_key : bool) (ko : mkind) (vo : Z) (kn : mkind) (vn : Z)
 | CFrame (max : Z) (bs : list Z) (body : Z)       (* body: 0 decodes, 1 rejected, 9 panics *)
+| CMuxFrame (max : Z) (bs : list Z) (body : Z)  (* mux_recv_proto on a transient stream that ends after bs *)
 | CMux (fixed : bool) (na nc : Z) (bs : list Z)
 | CMuxSweep (fixed : bool) (na nc : Z) (from count : Z) (tail : list Z)
 | CParts (hs : list Z).
@@ -475,6 +476,15 @@ Definition run_case (c : case) : obsv :=
                    if body =? 0 then Ok tt else if body =? 1 then Err 0 else Panic PUnwrap in
       let r := recv_proto dec max bs in
       OL [obs_out (fun _ => []) (fr_out r); OZ (fr_consumed r)]
+  | CMuxFrame max bs body =>
+      let dec := fun _ : list Z =>
+                   if body =? 0 then Ok tt else if body =? 1 then Err 0 else Panic PUnwrap in
+      (* both "end of stream" errors carry the same message on a transient stream *)
+      match fr_out (mux_recv_proto dec max bs) with
+      | Ok _ => OL [OZ 0]
+      | Err e => OL [OZ (if (e =? F_EOF_LEN) || (e =? F_EOF_MSG) then 13 else e)]
+      | Panic _ => OL [OZ 9]
+      end
   | CMux fixed na nc bs => obs_mux (mux_run fixed na nc bs)
   | CMuxSweep fixed na nc from count tail =>
       rle (map (fun h => obs_mux (mux_run fixed na nc ((h mod 256) :: (h / 256) :: tail)))
